@@ -54,6 +54,8 @@ class Info(object):
     call = None
     comp = None
     comp_vars = None
+    narrowed = None     # name of the narrowed copy when it is not the first argument of the call (generator form)
+    collect_anchor = None
     best_name = None
 
 
@@ -289,10 +291,91 @@ def _d1_call_args(r, C, hfi, call, p_input, where):
         r.undecided(C + ': check_response(...)', '**%s is not forwarded' % kw, where)
 
 
+def _d1_generator_host(r, idx, fi, hfi, C, comp, call, p_answers, p_input, info, bound):
+    """`[self.check_response(c, input, **kw) for c in <new generator helper>(answers)]` where the helper holds the two loops
+    and yields the narrowed copy.  Returns False if the shape is not this one (nothing recorded)."""
+    g = comp.generators[0]
+    gcall = g.iter
+    gname = nf.callee_name(gcall)
+    cands = [idx.func(q) for q in idx.unreviewed if idx.has_func(q) and q.rsplit('.', 1)[-1] == gname]
+    cands += [f for f in idx.funcs.values() if f.outer is hfi and f.name == gname]
+    if len(cands) != 1:
+        return False
+    gen = cands[0]
+    yields = [n for n in walk_own(gen.node) if isinstance(n, (ast.Yield, ast.YieldFrom))]
+    if len(yields) != 1 or not isinstance(yields[0], ast.Yield) or not isinstance(yields[0].value, ast.Name):
+        return False
+    params = list(gen.params)
+    if gen.cls is not None and not gen.is_static and isinstance(gcall.func, ast.Attribute):
+        params = params[1:]
+    mapping = dict(zip(params, gcall.args))
+    pa = [p for p, a in mapping.items() if fl.name_of(a) == p_answers]
+    if len(pa) != 1 or gcall.keywords:
+        return False
+    ga = pa[0]
+    y = yields[0]
+    yst = enclosing_stmt(y)
+    loops = list(reversed([a for a in ancestors(y) if isinstance(a, (ast.For, ast.While))]))
+    where = lib.loc(gen, y)
+    if len(loops) != 2 or not all(isinstance(l, ast.For) and isinstance(l.target, ast.Name) for l in loops):
+        r.undecided(C + ': loop over answers', 'generator helper %s does not consist of two nested for loops' % gen.name, where)
+        return True
+    outer, inner = loops
+    av = outer.target.id
+    it, _ = fl.unwrap_seq(outer.iter)
+    if fl.name_of(it) == ga:
+        r.ok(C + ': loop over answers', 'the generator iterates over the complete answers tuple', lib.loc(gen, outer))
+    elif isinstance(it, ast.Subscript) and fl.mentions(it.value, ga):
+        r.violation(C + ': loop over answers', 'only part of the alternatives is examined (`%s`)' % short(it), lib.loc(gen, outer))
+    else:
+        r.undecided(C + ': loop over answers', 'iteration not recognised: %s' % short(it), lib.loc(gen, outer))
+    it2, _ = fl.unwrap_seq(inner.iter)
+    if nf.match("%s['expect']" % av, it2) is not None:
+        r.ok(C + ': loop over expect entries', "the generator iterates over the complete answer['expect'] tuple", lib.loc(gen, inner))
+    elif isinstance(it2, ast.Subscript) and nf.match("%s['expect']" % av, it2.value) is not None:
+        r.violation(C + ': loop over expect entries', 'only part of the expect tuple is examined (`%s`)' % short(it2), lib.loc(gen, inner))
+    else:
+        r.undecided(C + ': loop over expect entries', 'iteration not recognised: %s' % short(it2), lib.loc(gen, inner))
+    inner_ids = {id(n) for n in ast.walk(inner)}
+    for lp, what in ((outer, 'loop over answers'), (inner, 'loop over expect entries')):
+        exits = [e for e in lib.loop_has_early_exit(lp) if not isinstance(e, ast.Raise)]
+        if lp is outer:
+            exits = [e for e in exits if id(e) not in inner_ids]
+        if exits:
+            r.violation(C + ': ' + what, '`%s` leaves or skips the loop of the generator: the remaining alternatives are not compared'
+                        % short(exits[0]), lib.loc(gen, exits[0]))
+        else:
+            r.ok(C + ': ' + what + ' [exits]', 'no break/continue/return', lib.loc(gen, lp))
+    conds = [a for a, br in fl.if_chain_containing(yst, gen.node)]
+    direct = any(s_ is yst for s_ in inner.body)
+    elt_ok = comp.elt is call and call.args and fl.name_of(call.args[0]) == g.target.id
+    if conds:
+        r.violation(C + ': results', 'an (answer, entry) pair is only yielded under `%s`: the other alternatives are not compared'
+                    % short(conds[0].test), where)
+    elif direct and elt_ok:
+        r.ok(C + ': results', 'one yielded copy per (answer, entry), one check_response result per yielded copy', where)
+    else:
+        r.undecided(C + ': results', 'yield / comprehension element not recognised', where)
+    st = enclosing_stmt(comp)
+    name = st.targets[0].id if isinstance(st, ast.Assign) and len(st.targets) == 1 and isinstance(st.targets[0], ast.Name) else None
+    if isinstance(comp, ast.ListComp) and name and st.value is comp and fl.enclosing_loop(st, hfi.node) is None and hfi is fi:
+        r.ok(C + ': results list', 'bound once to the comprehension', lib.loc(hfi, comp))
+        info.results = name
+    else:
+        r.undecided(C + ': results list', 'the comprehension is not bound to a plain name in check', lib.loc(hfi, comp))
+    info.host, info.outer, info.inner, info.narrowed = gen, outer, inner, y.value.id
+    info.collect_anchor = comp
+    _d1_call_args(r, C, hfi, call, p_input, lib.loc(hfi, call))
+    return True
+
+
 def _d1_comprehension(r, idx, fi, hfi, C, comp, call, p_answers, p_input, info, bound):
     """`[self.check_response(<fresh narrowed copy>, input, **kw) for answer in answers for entry in answer['expect']]`"""
     where = lib.loc(hfi, comp)
     gens = comp.generators
+    if len(gens) == 1 and isinstance(gens[0].target, ast.Name) and isinstance(gens[0].iter, ast.Call) and not gens[0].ifs \
+            and _d1_generator_host(r, idx, fi, hfi, C, comp, call, p_answers, p_input, info, bound):
+        return
     if len(gens) != 2 or not all(isinstance(g.target, ast.Name) for g in gens):
         r.undecided(C + ': loop over answers', 'comprehension with %d generators not recognised' % len(gens), where)
         return
@@ -490,7 +573,9 @@ def d2_selection(ctx, idx, info):
         wstmt = enclosing_stmt(W) if hasattr(W, '_parent') else None
         inside = wstmt is not None and fl.enclosing_loop(wstmt, fi.node) is not None
         anchor = None
-        if info.host is fi and info.outer is not None:
+        if info.collect_anchor is not None:
+            anchor = info.collect_anchor
+        elif info.host is fi and info.outer is not None:
             anchor = info.outer.iter
         elif info.host is fi and info.comp is not None:
             anchor = info.comp
@@ -695,6 +780,8 @@ def d4_copy(ctx, idx, info):
                     r.ok(C + ': ' + m.how, 'target is a fresh copy', lib.loc(f, m.node))
         a0 = call.args[0] if call.args else None
         where = lib.loc(hfi, call)
+        if info.narrowed:
+            a0 = ast.Name(id=info.narrowed, ctx=ast.Load())
         if info.comp is not None:
             av, ev_ = info.comp_vars
             if a0 is not None and any(nf.match(p.replace('_A', av).replace('_E', ev_), a0) is not None for p in FRESH_NARROWED):
